@@ -116,8 +116,33 @@ pub fn expected_entry_values(m: &Model, e: usize) -> (Vec<u8>, (u16, u32)) {
     (em.key.clone(), (c.pack, c.content_id))
 }
 
-fn run_op(container: &jubako::reader::Container, model: &Model, op: &Op, who: usize) -> Option<String> {
+/// The region a content operation works on (None for the other operations).
+fn fetch(container: &jubako::reader::Container, model: &Model, op: &Op) -> Option<Result<jubako::reader::ByteRegion, String>> {
+    let content = match op {
+        Op::ReadWhole { content, .. } | Op::Slice { content, .. } | Op::CutStream { content, .. } => *content,
+        _ => return None,
+    };
+    let c = &model.contents[content];
+    let addr = jubako::ContentAddress::new(c.pack.into(), c.content_id.into());
+    Some(match container.get_bytes(addr) {
+        Ok(Some(MayMissPack::FOUND(Some(r)))) => Ok(r),
+        Ok(other) => Err(format!("get_bytes({content}) answered {:?}", other.map(|m| match m {
+            MayMissPack::FOUND(o) => format!("FOUND({})", if o.is_some() { "Some" } else { "None" }),
+            MayMissPack::MISSING(_) => "MISSING".to_string(),
+        }))),
+        Err(e) => Err(format!("get_bytes({content}) failed: {}", simcore::dump::err_class(&e))),
+    })
+}
+
+/// `pre`: the region of a content operation when it was fetched earlier (views are owned values:
+/// the container may be gone by now, `container` is None then).
+fn run_op(container: Option<&jubako::reader::Container>, pre: Option<Result<jubako::reader::ByteRegion, String>>, model: &Model, op: &Op, who: usize) -> Option<String> {
+    let pre = std::cell::RefCell::new(pre);
     let get = |content: usize| -> Result<jubako::reader::ByteRegion, String> {
+        if let Some(r) = pre.borrow_mut().take() {
+            return r;
+        }
+        let container = container.ok_or("harness: content operation without container or region")?;
         let c = &model.contents[content];
         let addr = jubako::ContentAddress::new(c.pack.into(), c.content_id.into());
         match container.get_bytes(addr) {
@@ -188,6 +213,7 @@ fn run_op(container: &jubako::reader::Container, model: &Model, op: &Op, who: us
             Ok(())
         }
         Op::Entry { index, entry } => {
+            let container = container.ok_or("harness: entry operation without container")?;
             let (name, offset, _count) = &model.indexes[*index];
             let idx = container
                 .get_index_for_name(name)
@@ -222,7 +248,7 @@ fn run_op(container: &jubako::reader::Container, model: &Model, op: &Op, who: us
             }
             Ok(())
         }
-        Op::PackCheck { pack } => match container.get_pack(jubako::PackId::from(*pack)) {
+        Op::PackCheck { pack } => match container.ok_or("harness: pack check without container")?.get_pack(jubako::PackId::from(*pack)) {
             Ok(Some(MayMissPack::FOUND(p))) => match p.check() {
                 Ok(true) => Ok(()),
                 other => Err(format!("pack {pack} check: {:?}", other.map_err(|e| simcore::dump::err_class(&e)))),
@@ -230,7 +256,7 @@ fn run_op(container: &jubako::reader::Container, model: &Model, op: &Op, who: us
             Err(e) => Err(format!("get_pack({pack}) failed: {}", simcore::dump::err_class(&e))),
             _ => Err(format!("get_pack({pack}) did not answer FOUND")),
         },
-        Op::ContainerCheck => match container.check() {
+        Op::ContainerCheck => match container.ok_or("harness: container check without container")?.check() {
             Ok(true) => Ok(()),
             other => Err(format!("container check: {:?}", other.map_err(|e| simcore::dump::err_class(&e)))),
         },
@@ -468,6 +494,23 @@ impl TCheck for C07 {
         // with EIO now and then (1.5 % of the reads). An operation may then answer with an error;
         // it may never deliver wrong bytes, panic, or leave anybody waiting
         let read_faults = work % 6 == 4;
+        // one work in five: the readers keep only the regions and let go of the container first
+        let outlive = work % 5 == 3;
+        // one work in five: once the container and its packs are open, every file name of the
+        // container is given to another file of the same length (a new edition renamed into
+        // place while these readers have the old one open); the readers keep getting the bytes
+        // of the files that were opened
+        let replaced = work % 5 == 1 && !above_256mib;
+        let originals: Arc<Vec<(PathBuf, Vec<u8>)>> = Arc::new(if replaced {
+            std::fs::read_dir(&dir)
+                .unwrap()
+                .filter_map(|e| e.ok())
+                .filter(|e| e.path().is_file())
+                .map(|e| (e.path(), std::fs::read(e.path()).unwrap()))
+                .collect()
+        } else {
+            vec![]
+        });
         let mut knobs = knobs;
         if read_faults {
             knobs.push(("file_read_fail_pm", 15));
@@ -514,7 +557,7 @@ impl TCheck for C07 {
                 );
             }
         }
-        let desc = json!({"failing_reads": read_faults, "image": gen::describe(&logical), "readers": readers, "big_compressed_cluster": big, "two_MiB_sized_compressed_clusters": mib_pair, "content_above_16_MiB": above_16mib, "content_above_256_MiB": above_256mib,
+        let desc = json!({"failing_reads": read_faults, "regions_outlive_the_container": outlive, "names_given_to_other_files_after_open": replaced, "image": gen::describe(&logical), "readers": readers, "big_compressed_cluster": big, "two_MiB_sized_compressed_clusters": mib_pair, "content_above_16_MiB": above_16mib, "content_above_256_MiB": above_256mib,
                           "ops": ops.iter().map(|o| o.iter().map(|x| format!("{x:?}")).collect::<Vec<_>>()).collect::<Vec<_>>(),
                           "hot_contents": hot});
         let ops = Arc::new(ops);
@@ -524,6 +567,13 @@ impl TCheck for C07 {
             knobs,
             body: Arc::new(move |slot: &Slot| {
                 let mut rep = BodyReport::default();
+                for (p, bytes) in originals.iter() {
+                    // (an earlier execution of this work left the other files under the names)
+                    let tmp = p.with_extension("orig");
+                    if let Err(e) = std::fs::write(&tmp, bytes).and_then(|_| std::fs::rename(&tmp, p)) {
+                        simcore::harness_error(&format!("C07: cannot restore {}: {e}", p.display()));
+                    }
+                }
                 let container = match jubako::reader::Container::new(&image2.entry) {
                     Ok(c) => Arc::new(c),
                     Err(e) => {
@@ -534,6 +584,21 @@ impl TCheck for C07 {
                         return;
                     }
                 };
+                if replaced {
+                    // every pack is located and opened first (a pack that is looked up after the
+                    // replacement would rightly be the new file)
+                    for p in image2.model.pack_ids() {
+                        let _ = container.get_pack(jubako::PackId::from(p));
+                    }
+                    for (p, bytes) in originals.iter() {
+                        let other: Vec<u8> = bytes.iter().map(|b| !b).collect();
+                        let tmp = p.with_extension("new");
+                        if let Err(e) = std::fs::write(&tmp, &other).and_then(|_| std::fs::rename(&tmp, p)) {
+                            simcore::harness_error(&format!("C07: cannot replace {}: {e}", p.display()));
+                        }
+                    }
+                    rep.notes.insert("fault:names-given-to-other-files-after-open".into(), originals.len() as u64);
+                }
                 let complaints: Arc<Mutex<Vec<String>>> = Arc::new(Mutex::new(vec![]));
                 let order: Arc<Mutex<Vec<u32>>> = Arc::new(Mutex::new(vec![]));
                 let mut handles = vec![];
@@ -544,14 +609,47 @@ impl TCheck for C07 {
                     let complaints = Arc::clone(&complaints);
                     let order = Arc::clone(&order);
                     handles.push(shuttle::thread::spawn(move || {
+                        if outlive {
+                            // views are owned values: every reader first asks for all it needs
+                            // (and does what needs the container), lets go of the container, and
+                            // reads afterwards; the last one to let go closes the container while
+                            // the others are already reading
+                            let mut held = vec![];
+                            for op in &my_ops {
+                                match fetch(&container, &image.model, op) {
+                                    Some(r) => held.push((op, r)),
+                                    None if replaced && matches!(op, Op::ContainerCheck) => {}
+                                    None => {
+                                        if let Some(c) = run_op(Some(&container), None, &image.model, op, who) {
+                                            complaints.lock().unwrap().push(c);
+                                        }
+                                        order.lock().unwrap().push(who as u32);
+                                    }
+                                }
+                            }
+                            drop(container);
+                            for (op, r) in held {
+                                if let Some(c) = run_op(None, Some(r), &image.model, op, who) {
+                                    complaints.lock().unwrap().push(format!("{c} (read after the container was let go)"));
+                                }
+                                order.lock().unwrap().push(who as u32);
+                            }
+                            return;
+                        }
                         for op in &my_ops {
-                            if let Some(c) = run_op(&container, &image.model, op, who) {
+                            if replaced && matches!(op, Op::ContainerCheck) {
+                                // Container::check locates the packs again, by name: it looks at
+                                // the other files now, and what it says about them is not judged
+                                continue;
+                            }
+                            if let Some(c) = run_op(Some(&container), None, &image.model, op, who) {
                                 complaints.lock().unwrap().push(c);
                             }
                             order.lock().unwrap().push(who as u32);
                         }
                     }));
                 }
+                drop(container);
                 for h in handles {
                     if h.join().is_err() {
                         complaints.lock().unwrap().push("a reader task panicked".into());
